@@ -37,6 +37,8 @@ pub struct IoEvent {
     pub data: Vec<u8>,
     /// the step was made to fail (it was not performed)
     pub failed: bool,
+    /// structure tag current at the time of the step (see `set_tag`); "" if none was set
+    pub tag: &'static str,
 }
 
 struct State {
@@ -44,6 +46,8 @@ struct State {
     events: Vec<IoEvent>,
     fail_at: Option<u64>,
     count: u64,
+    tag: &'static str,
+    point: Option<fn(&str)>,
 }
 
 static STATE: Mutex<State> = Mutex::new(State {
@@ -51,6 +55,8 @@ static STATE: Mutex<State> = Mutex::new(State {
     events: Vec::new(),
     fail_at: None,
     count: 0,
+    tag: "",
+    point: None,
 });
 
 /// Start recording (clears earlier events).  `fail_at = Some(n)`: the step with
@@ -84,6 +90,7 @@ pub fn hook(kind: IoKind, path: &Path, path2: Option<&Path>, offset: u64, data: 
     let seq = s.count;
     s.count += 1;
     let failed = s.fail_at == Some(seq);
+    let tag = s.tag;
     s.events.push(IoEvent {
         seq,
         kind,
@@ -92,9 +99,32 @@ pub fn hook(kind: IoKind, path: &Path, path2: Option<&Path>, offset: u64, data: 
         offset,
         data: data.to_vec(),
         failed,
+        tag,
     });
     if failed {
         return Err(io::Error::other("verif: injected I/O fault"));
     }
     Ok(())
+}
+
+/// Structure tag attached to the following events.  The pager sets it to the source
+/// file of the caller of `allocate_page` / `ensure_allocated` / `free_page` /
+/// `write_page` (idmap.rs, btree.rs, blob_store.rs, csr.rs, catalog.rs, ...), so a
+/// page-ownership monitor can tell which structure allocated or wrote a page.
+pub fn set_tag(tag: &'static str) {
+    STATE.lock().unwrap_or_else(|e| e.into_inner()).tag = tag;
+}
+
+/// Install (or remove) a callback run at named schedule points (see `point`).
+pub fn set_point_handler(f: Option<fn(&str)>) {
+    STATE.lock().unwrap_or_else(|e| e.into_inner()).point = f;
+}
+
+/// A named schedule point: runs the installed handler, if any, on the calling thread
+/// (the lock is not held while it runs, so the handler may use the database).
+pub fn point(name: &str) {
+    let f = STATE.lock().unwrap_or_else(|e| e.into_inner()).point;
+    if let Some(f) = f {
+        f(name);
+    }
 }
